@@ -111,6 +111,33 @@ def single_def(fa, name, at):
     return None
 
 
+def _creating(ds):
+    """reaching definitions without the in-place ones (`m |= other` changes the mapping `m` names, it does not
+    make it name another one)"""
+    return [d for d in ds if not (d.kind == "aug" and isinstance(getattr(d.stmt, "op", None), ast.BitOr))]
+
+
+class CaseDef:
+    """One arm of a definition whose value is a conditional expression: the definition, taken under `guard`
+    (literals as FA._atoms gives them)."""
+    __slots__ = ("node", "name", "value", "kind", "stmt", "guard")
+
+    def __init__(self, d, arm, value, guard):
+        self.node, self.name, self.kind, self.stmt = d.node, "%s#%s" % (d.name, arm), d.kind, d.stmt
+        self.value, self.guard = value, tuple(getattr(d, "guard", ())) + tuple(guard)
+
+
+def case_conds(fa, d):
+    """the conditions under which definition `d` (a Def or one arm of it) is made"""
+    out = set()
+    extra = canon_conj(getattr(d, "guard", ()))
+    for c in conds(fa, d.node):
+        lits = set(c) | set(extra)
+        if not any((t, not p) in lits for (t, p) in lits):
+            out.add(frozenset(lits))
+    return out
+
+
 def origin(fa, expr, at, _seen=frozenset()):
     """The definition that created the object `expr` denotes at CFG node `at`: plain aliases (locals and
     fields of self, casts) are followed back; several reaching assignments are fine as long as they all lead
@@ -118,7 +145,7 @@ def origin(fa, expr, at, _seen=frozenset()):
     nm = _ref_name(strip_cast(expr))
     if nm is None:
         return None
-    ds = fa.df.reaching(at, nm)
+    ds = _creating(fa.df.reaching(at, nm))
     if not ds or any(d.kind != "assign" or d.value is None for d in ds):
         return None
     res = []
@@ -141,17 +168,29 @@ def origins(fa, expr, at, _seen=frozenset()):
     nm = _ref_name(strip_cast(expr))
     if nm is None:
         return None
-    ds = fa.df.reaching(at, nm)
+    ds = _creating(fa.df.reaching(at, nm))
     if not ds or any(d.kind != "assign" or d.value is None for d in ds):
         return None
     out = []
-    for d in ds:
-        if (d.node, d.name) in _seen:
+
+    def arms(d):
+        # a conditional expression creates one object per arm
+        v = strip_cast(d.value)
+        if isinstance(v, ast.IfExp):
+            res = []
+            for (arm, branch, pol) in (("T", v.body, True), ("F", v.orelse, False)):
+                res += arms(CaseDef(d, arm, branch, fa._atoms(v.test, d.node, pol)))
+            return res
+        return [d]
+
+    for d0 in ds:
+        if (d0.node, d0.name) in _seen:
             return None
-        sub = origins(fa, d.value, d.node, _seen | {(d.node, d.name)}) if _ref_name(strip_cast(d.value)) is not None else None
-        for o in (sub if sub is not None else [d]):
-            if not any(same_def(o, x) for x in out):
-                out.append(o)
+        for d in arms(d0):
+            sub = origins(fa, d.value, d.node, _seen | {(d0.node, d0.name)}) if _ref_name(strip_cast(d.value)) is not None else None
+            for o in (sub if sub is not None else [d]):
+                if not any(same_def(o, x) for x in out):
+                    out.append(o)
     return out
 
 
@@ -608,6 +647,17 @@ def check(ck):
         for t in s.targets:
             if isinstance(t, ast.Subscript) and A.const_str(init.expand(t.slice, init.nodes(s)[0]) if init.nodes(s) else t.slice) == RESERVED:
                 stores.append((s, t.value, s.value))
+    for s in init.stmts(ast.Expr):
+        c = s.value
+        if not (isinstance(c, ast.Call) and isinstance(c.func, ast.Attribute) and init.nodes(s)):
+            continue
+        if c.func.attr in ("__setitem__", "setdefault") and len(c.args) == 2 and A.const_str(init.expand(c.args[0], init.nodes(s)[0])) == RESERVED:
+            stores.append((s, c.func.value, c.args[1]))
+        elif c.func.attr == "update":
+            # m.update({KEY: v}) / m.update(KEY=v)
+            sh = map_shape(c.args[0]) if len(c.args) == 1 and not c.keywords else ((None, [(k.arg, k.value) for k in c.keywords if k.arg], False) if not c.args else None)
+            if sh is not None and sh[0] is None:
+                stores += [(s, c.func.value, v) for (k, v) in sh[1] if k == RESERVED]
     shapes = [(d, map_shape(d.value)) for d in hks]
     inline = [(d, v) for (d, sh) in shapes if sh is not None for (k, v) in sh[1] if k == RESERVED]
     n_sites = len(stores) + len(inline)
@@ -642,19 +692,28 @@ def check(ck):
         for (d, v) in inline:
             ok = ok and fl.reads_final(v, d.node, "context_args")
             ok = ok and d.node not in after_hash and fl.hash_at in init.cfg.reach([d.node])
-            cs |= relative(conds(init, d.node), base)
+            cs |= relative(case_conds(init, d), base)
         # exactly when non-empty
         ok = ok and holds_iff_nonempty(cs, ca_txt)
     ck.ob(R1, HK_Q + "::reserved-key", bool(ok), "context args enter the hash under %r iff non-empty" % RESERVED if ok else
           "context args are not added to the hash input under %r exactly when non-empty" % RESERVED, where_r)
     # every case of the hash input starts from a copy of the finished effective kwargs
     okc = bool(hks) and ek is not None
+    # (a case in which the hash input is the effective kwargs themselves is as good as a copy as long as the reserved
+    # key is never stored on a mapping that may be them)
+    leaky = any(any(same_def(o, ek) for o in (origins(init, m, init.nodes(s)[0]) or [ek])) for (s, m, v) in stores)
+    n_copies = 0
     for (d, sh) in shapes:
-        okc = okc and sh is not None and sh[0] is not None and not same_def(d, ek) and fl.denotes(sh[0], d.node, ek)
+        if same_def(d, ek):
+            okc = okc and not leaky
+            continue
+        n_copies += 1
+        okc = okc and sh is not None and sh[0] is not None and fl.denotes(sh[0], d.node, ek)
+    okc = okc and n_copies >= 1
     if okc:
         # the copy is taken from the finished mapping, and the reserved key never lands in the mapping the body receives
         ek_names = fl.aliases_of(ek)
-        after_copy = init.cfg.reach([d.node for d in hks], include_start=False)
+        after_copy = init.cfg.reach([d.node for d in hks if not same_def(d, ek)], include_start=False)
         for s in init.stmts((ast.Assign, ast.AugAssign, ast.Expr)):
             ids = init.nodes(s)
             if not ids:
@@ -662,6 +721,8 @@ def check(ck):
             muts = []
             if isinstance(s, ast.Assign):
                 muts = [t.value for t in s.targets if isinstance(t, ast.Subscript)]
+            elif isinstance(s, ast.AugAssign):
+                muts = [s.target.value] if isinstance(s.target, ast.Subscript) else ([s.target] if isinstance(s.op, ast.BitOr) else [])
             elif isinstance(s, ast.Expr) and isinstance(s.value, ast.Call) and A.call_attr(s.value) in ("update", "setdefault", "pop", "clear", "popitem", "__setitem__"):
                 muts = [A.call_recv(s.value)] if A.call_recv(s.value) is not None else []
             for m in muts:
@@ -726,6 +787,7 @@ def check(ck):
         at = rb.nodes(c)[0]
         par = rb.pm.get(c)
         cv = src = None
+        made, heads = [], []
         through = []      # nodes every inheriting path must pass: where the list is rebuilt
         holders = set()   # (node, name) definitions that hold the rebuilt list
         if isinstance(par, (ast.ListComp, ast.GeneratorExp)) and par.elt is c and len(par.generators) == 1 and not par.generators[0].ifs \
@@ -739,6 +801,8 @@ def check(ck):
                 cv, src = par.generators[0].target.id, par.generators[0].iter
                 through = rb.nodes(st)
                 holders = {(i, st.targets[0].id) for i in rb.nodes(st)}
+                made = [d_ for i in rb.nodes(st) for d_ in rb.df.gen.get(i, []) if d_.name == st.targets[0].id]
+                heads = through
         elif isinstance(par, ast.Call) and A.call_attr(par) == "append" and par.args == [c] and isinstance(A.call_recv(par), ast.Name):
             st = rb.stmt_of(c)
             loop = rb.enclosing(st, (ast.For, ast.While))
@@ -751,10 +815,13 @@ def check(ck):
                     cv, src = loop.target.id, loop.iter
                     through = heads
                     holders = {(ld.node, lname)}
-                    for s in rb.stmts(ast.Assign):
-                        if len(s.targets) == 1 and isinstance(s.targets[0], ast.Name) and rb.nodes(s) and isinstance(s.value, ast.Name) \
-                                and same_def(origin(rb, s.value, rb.nodes(s)[0]), ld) and set(rb.nodes(s)) & rb.cfg.reach(heads, include_start=False):
-                            holders |= {(i, s.targets[0].id) for i in rb.nodes(s)}
+                    made = [ld]
+        if cv is not None and made:
+            # other names the rebuilt list is handed on under (`refs = rebuilt`)
+            for s in rb.stmts(ast.Assign):
+                if len(s.targets) == 1 and isinstance(s.targets[0], ast.Name) and rb.nodes(s) and isinstance(strip_cast(s.value), ast.Name) \
+                        and any(same_def(origin(rb, s.value, rb.nodes(s)[0]), m_) for m_ in made) and set(rb.nodes(s)) & rb.cfg.reach(heads, include_start=False):
+                    holders |= {(i, s.targets[0].id) for i in rb.nodes(s)}
         ok3 = cv is not None and isinstance(src, ast.Name) and src.id == P_REFS and all(d.kind == "param" for d in rb.df.reaching(through[0], P_REFS))
         if ok3:
             a = [A.arg_or_kw(c, i, n) for i, n in enumerate(("fn_reference", "args", "kwargs", "context_args"))]
